@@ -127,13 +127,14 @@ Proof.
   unfold try_restarted. destruct (get s u) as [a|]; [|intros H; inversion H; subst; apply cs_refl].
   destruct (a_children a); [|intros H; inversion H; subst; apply cs_refl].
   destruct (a_st a); try (intros H; inversion H; subst; apply cs_refl).
+  destruct (provide s (a_tok a)) as [s0 inst] eqn:Ep. intros H.
+  apply (cs_trans s s0); [unfold provide in Ep; inversion Ep; subst; reflexivity|]. revert H.
   apply (bind_rel cs); [apply cs_trans| |].
   - intros s1 o1 p1 E. eapply cs_handle; exact E.
   - intros s1 s2 o2 p2. apply (bind_rel cs); [apply cs_trans| |].
     + intros s3 o3 p3 E. eapply cs_handle; exact E.
-    + intros s3 s4 o4 p4. destruct (provide s3 (a_tok a)) as [s5 inst] eqn:Ep. intros H. apply cs_start_instance in H.
-      eapply cs_trans; [|exact H]. eapply cs_trans; [|apply cs_deliver_sys]. eapply cs_trans; [|apply cs_upd_actor].
-      unfold provide in Ep; inversion Ep; subst. reflexivity.
+    + intros s3 s4 o4 p4. intros H. apply cs_start_instance in H.
+      eapply cs_trans; [|exact H]. eapply cs_trans; [|apply cs_deliver_sys]. apply cs_upd_actor.
 Qed.
 Lemma cs_process_user s u e s' o p : process_user roles s u e = (s', o, p) -> cs s s'.
 Proof.
